@@ -300,6 +300,7 @@ def spec_check(case, obs):
     for ip in ips:
         idx = [i for i, o in enumerate(ops) if o["ip"] == ip or o["op"] in ("cleanup", "blcleanup", "rlcleanup")]
         fails = []            # indices of failures since the last success
+        life = 0              # failures since the last success or clean-up (a clean-up may drop the record and its total)
         total = 0             # failures ever (liberal justification of a permanent ban)
         must = []             # (from_t, until_t or None, why): ban required in [from, until]
         causes = []           # (from_t, until_t or None): ban justified in [from, until]
@@ -309,9 +310,9 @@ def spec_check(case, obs):
         for i in idx:
             o, x = ops[i], obs[i]
             name = o["op"]
-            if o["ip"] != ip:
+            is_fail = o["ip"] == ip and (name == "fail" or (name == "hs" and x["r"] == 3))
+            if o["ip"] != ip and name != "cleanup":
                 continue
-            is_fail = name == "fail" or (name == "hs" and x["r"] == 3)
             if name == "hs" and x["r"] in (0, 1, 2) and x["cc"] != 0:
                 bad.append(("gate-order", i, "handshake refused at gate %d still consulted the credential store %d time(s)" % (x["r"] + 1, x["cc"])))
             # ---- requirements on this step
@@ -334,9 +335,16 @@ def spec_check(case, obs):
                 if refused and not any(x["t1"] >= frm and (until is None or x["t0"] <= until) for frm, until in blcauses):
                     bad.append(("blacklist-false-refusal", i, "address refused as blacklisted at step %d without an entry in force" % i))
             # ---- effects of this step
+            if name == "cleanup":
+                life = 0
+            if o["ip"] != ip:
+                continue
             if is_fail:
                 fails.append(i)
                 total += 1
+                life += 1
+                if life >= cfg["perm"]:
+                    must.append((x["t1"], None, "lifetime total of %d failures reached at step %d" % (cfg["perm"], i)))
                 k = cfg["maxf"]
                 if len(fails) >= k and x["t1"] - obs[fails[-k]]["t0"] < W - MARGIN:
                     must.append((x["t1"], x["t0"] + D - MARGIN, "%d failures within the window ending at step %d" % (k, i)))
@@ -346,6 +354,7 @@ def spec_check(case, obs):
                     causes.append((x["t0"], None))
             elif name == "succ" or (name == "hs" and x["r"] == 4):
                 fails = []
+                life = 0
             elif name == "ban":
                 d = o["arg"] * MS
                 must.append((x["t1"], None if d == 0 else x["t0"] + d - MARGIN, "manual ban at step %d" % i))
@@ -390,7 +399,7 @@ def load_corpus():
     return out
 
 
-def shrink_tl(binary, case, still_bad, rounds=10):
+def shrink_tl(binary, case, still_bad, rounds=6):
     """drop operations while the failure persists; all single deletions of a round run concurrently on the real code"""
     cur = case
     for _ in range(rounds):
